@@ -513,6 +513,8 @@ func (x *Exec) VerifyRoot() ([]*Obligation, error) {
 		for _, r := range f.rets {
 			env := x.envForFunc(fn, x.rootC, params, r.results, r.st, entry)
 			env.reach = r.reach
+			env.frame = f // postconditions may mention locals with a single definition (resolved through DebugRefs)
+			env.allocPre = entry.Get(allocName, "Int")
 			for _, c := range x.rootC.Ensures {
 				t, err := env.evalBool(c.E)
 				if err != nil {
